@@ -27,13 +27,13 @@ def _run_harness(exe, script, trace, timeout, extra_args=()):
         return 124, "harness timeout"
 
 
-def _count_execs(trace):
+def _count_execs(trace, marker='{"e":"Init"'):
     n = 0; lines = 0; last_init_line = 0
     try:
         with open(trace) as f:
             for line in f:
                 lines += 1
-                if line.startswith('{"e":"Init"'):
+                if line.startswith(marker):
                     n += 1; last_init_line = lines
     except OSError:
         pass
@@ -41,7 +41,7 @@ def _count_execs(trace):
 
 
 def _chunk_job(args):
-    (exe, module, workdir, k, hists, htimeout, tlc_timeout, extra_args, tlc_env) = args
+    (exe, module, workdir, k, hists, htimeout, tlc_timeout, extra_args, tlc_env, marker) = args
     """Run one chunk: harness (restarting after a crash) then TLC.  Returns dict."""
     out = {"k": k, "crashes": [], "results": [], "lines": 0, "tlc_wall": 0.0, "infra": None, "offsets": []}
     pos = 0
@@ -55,7 +55,7 @@ def _chunk_job(args):
                 for c in h:
                     f.write(json.dumps(c, separators=(",", ":")) + "\n")
         rc, err = _run_harness(exe, script, trace, htimeout, extra_args)
-        nexec, nlines, _ = _count_execs(trace)
+        nexec, nlines, _ = _count_execs(trace, marker)
         traces.append((trace, pos))
         if rc == 0:
             pos = len(hists)
@@ -72,7 +72,7 @@ def _chunk_job(args):
                     ls = f.readlines()
                 cnt = 0
                 for ln in ls:
-                    if ln.startswith('{"e":"Init"'):
+                    if ln.startswith(marker):
                         cnt = 0
                     if ln.strip():
                         cnt += 1
@@ -118,7 +118,7 @@ def _chunk_job(args):
 
 
 def run_histories(pid, harness, module, histories, variant="asan", nchunks=None, htimeout=900, tlc_timeout=1000,
-                  extra_args=(), tlc_env=None, keep=False):
+                  extra_args=(), tlc_env=None, keep=False, marker='{"e":"Init"'):
     """Returns (failures, counters, stats).  failures: list of Failure (history = index into histories)."""
     exe = vc.build_harness(harness, variant)
     workdir = os.path.join(vc.OUT, pid + "-" + str(os.getpid()))
@@ -133,7 +133,7 @@ def run_histories(pid, harness, module, histories, variant="asan", nchunks=None,
     for k in range(nchunks):
         hs = histories[bounds[k]:bounds[k + 1]]
         if hs:
-            jobs.append((exe, module, workdir, k, hs, htimeout, tlc_timeout, extra_args, tlc_env))
+            jobs.append((exe, module, workdir, k, hs, htimeout, tlc_timeout, extra_args, tlc_env, marker))
     failures = []
     counters = {}
     stats = {"histories": n, "records": 0, "tlc_wall": 0.0, "infra": [], "drift": []}
